@@ -747,3 +747,11 @@ def rule_session(ctx, R):
 
 
 RULES.append(("C11.SESSION", "the session around the steps: program logged before the first step, bound test after every step, words read behind the word-count test, `break N` toggles N", rule_session))
+
+
+def _codeapi(ctx, R):
+    from . import p_c01
+    return p_c01.rule_codeapi(ctx, R)
+
+
+RULES.append(("C11.CODEAPI", "the words kind / syllable count / dot count / area count / area mean the fields of the command record: getters and constructors of UnOptCode and OptCode (shared with C01.CODEAPI)", _codeapi))
